@@ -236,6 +236,25 @@ def check_one(case):
                 out.viol('wrong-keys', '%s (f with own defaults): result keys %s, expected %s' % (label, list(fresh['k']), surviving), missing=True, extra=False, order_only=False, **sig)
         except Exception as e:
             out.viol('perdictable-raised', '%s: calling one lifted function twice (first without the defaulted inputs) raised %s: %s' % (label, type(e).__name__, e), exc=type(e).__name__, twice=True, **sig)
+    # ---------------- a table input that carries, next to the column named after its parameter, further columns - one of them literally called 'data'
+    #                  (e.g. the include_inputs output of an earlier run fed back in): the value is the column named after the parameter
+    if data is None and tabs and surviving:
+        out.sub()
+        calls[:] = []
+
+        def xtable(n, ks):
+            ks = list(ks)[::-1]
+            return dictable({'k': ks, 'data': ['junk:%s' % k for k in ks], n: ['%s:%s' % (n, k) for k in ks], 'expiry': [None] * len(ks)})
+        kw5 = {n: ('%s:*' % n if assign[n] == 'scalar' else xtable(n, assign[n])) for n in names}
+        try:
+            r5 = perdictable(f, on='k', defaults=dict(defaults) if dfl else {})(**kw5)
+            out.call()
+            want5 = ['f(%s)' % ','.join([value_of(n, k) for n in names] + ['None'] * (4 - len(names))) for k in surviving]
+            if not isinstance(r5, dictable) or list(r5['k']) != surviving or list(r5['data']) != want5:
+                out.viol('wrong-value', "%s, every table also holding columns 'data' and 'expiry': got keys %s values %s, expected keys %s values %s" % (
+                    label, list(r5['k']) if isinstance(r5, dictable) else r5, list(r5['data']) if isinstance(r5, dictable) else None, surviving, want5), generic=True, shared=False, extra_data_column=True, **sig)
+        except Exception as e:
+            out.viol('perdictable-raised', "%s with tables also holding a column called 'data' raised %s: %s" % (label, type(e).__name__, e), exc=type(e).__name__, generic=True, **sig)
     # ---------------- no table at all, but a value that is a list / tuple / range / empty list: it is a VALUE (f gets it whole, once), not a column
     if data is None and not tabs and not dfl:
         for vname, v in (('[5]', [5]), ('[]', []), ('[1, 2, 3]', [1, 2, 3]), ("('T',)", ('T',)), ('range(2)', range(2))):
